@@ -161,7 +161,8 @@ def run_pairs(ctx, pairs, observables, label=None):
             diffs = diffs or [("spec", "harness-exception", py[0]["s"][1])]
         for level, ob, detail in diffs:
             if level == "infra":
-                raise RuntimeError("driver: " + detail)
+                # the model gave no answer on this scenario: the correspondence cannot be checked on it
+                level, ob, detail = "mach", "driver", "the model's driver gave no answer (" + detail + ")"
             v = dict(level=level, what=f"python vs {'specification' if level == 'spec' else 'machine model'} on '{ob}'",
                      detail=detail, scenario={k: v for k, v in sc.items() if k != "id"}, family="q",
                      observables=observables, label=label)
